@@ -136,6 +136,9 @@ class SetTypes:
                     for a in n.args:
                         if self.is_set(a, f):
                             out.append((fn.id, a, n))
+                elif isinstance(fn, ast.Name) and fn.id in ("max", "min") and any(k.arg == "key" for k in n.keywords) and n.args and self.is_set(n.args[0], f) and not self.p.is_local(f.node, fn.id):
+                    # with a key function several elements can be equally good: the first one in iteration order wins
+                    out.append((fn.id + "(key=)", n.args[0], n))
                 elif isinstance(fn, ast.Attribute) and fn.attr == "pop" and not n.args and self.is_set(fn.value, f):
                     out.append(("pop", fn.value, n))
                 elif isinstance(fn, ast.Attribute) and fn.attr == "join" and n.args and self.is_set(n.args[0], f):
